@@ -142,7 +142,7 @@ func monitorC05(c *Ctx, r *BlockRec) {
 		// only deputies' income addresses gain by the reward: every account whose balance grew in
 		// a reward block must be a transaction recipient, the fee receiver, a candidate (deposit
 		// refund, conservation-neutral) or an income address named by some candidate profile
-		allowed := map[common.Address]bool{r.Net.Deputies[r.Deputy].Income.Addr: true, params.DepositPoolAddress: true} // deposits of register txs go to the pool
+		allowed := map[common.Address]bool{r.Miner.Income.Addr: true, params.DepositPoolAddress: true} // deposits of register txs go to the pool
 		for _, tx := range allTxs(b) {
 			if tx.To() != nil {
 				allowed[*tx.To()] = true
@@ -168,11 +168,11 @@ func monitorC05(c *Ctx, r *BlockRec) {
 		}
 	}
 	// the miner's income address receives exactly the fees, when it is not otherwise a party
-	dep := r.Net.Deputies[r.Deputy]
+	dep := r.Miner
 	income := dep.Income.Addr
 	party := false
 	for _, tx := range allTxs(b) {
-		if tx.From() == income || tx.GasPayer() == income || (tx.To() != nil && *tx.To() == income) {
+		if tx.From() == income || tx.GasPayer() == income || (tx.To() != nil && *tx.To() == income) || tx.From() == dep.Miner.Addr {
 			party = true
 		}
 	}
